@@ -60,6 +60,7 @@ def check(ctx, report):
     report.rule('C02.R2', 'parser keys are defined on every path before they are read')
     report.rule('C02.R3', 'converters/validators of objects built from parsed values cannot raise undocumented errors')
     table_shape(ctx, report)
+    eager_decoding(ctx, report)
     report.rule('C02.R4', 'risky operations on input derived values are guarded or converted')
     deep = Interp(model, deep=True)
     es = Escape(model, deep)
@@ -321,3 +322,31 @@ def table_shape(ctx, report):
                 who = '; '.join('%s.%s' % (e, '/'.join(ms[:3])) for e, ms in list(cols[col].items())[:3])
                 report.add('C02.R5', '%s@deref[%s]' % (f.construct, ast.unparse(n)),
                            '%s dereferences the table column %r, which is null for %s: AttributeError for those code points' % (ast.unparse(n), col, who))
+
+
+def eager_decoding(ctx, report):
+    """asn1crypto decodes lazily: the handler of LDAPMessageParsableBase._parse_asn1 converts the decoder's errors only if
+    the whole structure is decoded *inside* its try block, which ``<loaded object>.native`` forces. Without it the errors
+    of a malformed inner field surface later, at the first ``.native`` / item access in the callers, outside any handler."""
+    c = ctx.model.try_cls('LDAPMessageParsableBase')
+    f = c.methods.get('_parse_asn1') if c is not None else None
+    report.count('C02.R4')
+    if f is None:
+        report.error('C02.R4: LDAPMessageParsableBase._parse_asn1 vanished')
+        return
+    report.touch(f)
+    ok = False
+    for t in [n for n in ast.walk(f.node) if isinstance(n, ast.Try)]:
+        loaded = set()
+        for st in t.body:
+            if isinstance(st, ast.Assign) and isinstance(st.value, ast.Call) and ast.unparse(st.value.func).endswith('.load'):
+                loaded |= {x.id for x in st.targets if isinstance(x, ast.Name)}
+            for n in ast.walk(st):
+                if isinstance(n, ast.Attribute) and n.attr == 'native' and isinstance(n.value, ast.Name) and n.value.id in loaded:
+                    ok = True
+                if isinstance(n, ast.Attribute) and n.attr == 'native' and isinstance(n.value, ast.Call) and ast.unparse(n.value.func).endswith('.load'):
+                    ok = True
+    if not ok:
+        report.add('C02.R4', f.construct + '@eager-decode',
+                   'the loaded message is not fully decoded (<message>.native) inside the try block: decoding errors of inner fields are raised '
+                   'later, outside the handler that turns them into InvalidValue / NotEnoughData')
